@@ -318,7 +318,8 @@ fn dict_members(d: &RDict, ch: &mut Ch) -> Vec<(String, JV)> {
 }
 
 fn rfc3339(d: &RDt) -> String {
-    let local = d.secs + d.offset as i64;
+    let written = zones::written_offset(d.offset);
+    let local = d.secs + written as i64;
     let (y, mo, da, h, mi, s) = civil(local);
     let mut out = format!("{y:04}-{mo:02}-{da:02}T{h:02}:{mi:02}:{s:02}");
     if d.nanos != 0 {
@@ -329,11 +330,11 @@ fn rfc3339(d: &RDt) -> String {
         out.push('.');
         out.push_str(&digits);
     }
-    if d.offset == 0 {
+    if written == 0 {
         out.push('Z');
     } else {
-        let sign = if d.offset < 0 { '-' } else { '+' };
-        let a = d.offset.abs();
+        let sign = if written < 0 { '-' } else { '+' };
+        let a = written.abs();
         out.push_str(&format!("{sign}{:02}:{:02}", a / 3600, (a % 3600) / 60));
     }
     out
@@ -664,8 +665,8 @@ pub fn read_jv(j: &JV) -> Result<RVal, String> {
                         Some(n) if n == "UTC" && off == 0 => RVal::DateTime(RDt { secs, nanos, offset: 0, city: "UTC".into(), tz: "UTC".into() }),
                         Some(n) => {
                             let cands: Vec<&zones::ZoneInfo> = zones::zones().iter().filter(|z| z.city == n || z.id == n).collect();
-                            match cands.iter().find(|z| zones::offset_at(&z.tz, secs) == off) {
-                                Some(z) => RVal::DateTime(RDt { secs, nanos, offset: off, city: z.city.clone(), tz: z.id.to_string() }),
+                            match cands.iter().find(|z| (zones::offset_at(&z.tz, secs) - off).abs() < 60) {
+                                Some(z) => RVal::DateTime(RDt { secs, nanos, offset: zones::offset_at(&z.tz, secs), city: z.city.clone(), tz: z.id.to_string() }),
                                 None => return Err(format!("offset {off} is not the offset of zone {n:?} at that instant (or unknown zone)")),
                             }
                         }
